@@ -72,6 +72,9 @@ func H_C14_iter() {
 		// a body whose first yield gives nil for one argument value z, followed by a second
 		// yield and by a non-nil last statement: next returns the FIRST yielded value, nil included
 		c14NilOn, c14NilAt = true, c14Small(-3, 5)
+		if narrow {
+			rt.Assume(c14NilAt >= -1 && c14NilAt <= 2)
+		}
 		h.Set("z", object.NewPanInt(c14NilAt))
 		lit = `gen := <{|n| yield (nil if n == z else n * 10 + 1) if n < lim; recur(n + d); yield 77; n * 10 + 7}>`
 	}
